@@ -130,7 +130,11 @@ def run_mc_job(job, scratch):
     reported as a model-level finding (exit 2, never a VIOLATION by itself: DESIGN.md verdict policy)."""
     out, st = run_tlc(job["module"], job["cfg"], scratch, workers=job.get("workers", 8), timeout=job.get("tlc_timeout", 1800),
                       xmx=job.get("xmx", "8g"), extra=job.get("extra"))
-    if "No error has been found" not in out:
+    if job.get("expect_violation"):
+        # a negative control: the model must exhibit the (repaired) design defect under this configuration
+        if "is violated" not in out:
+            raise Infra("model %s/%s was expected to violate its property (negative control) but did not:\n%s" % (job["module"], job["cfg"], out[-2000:]))
+    elif "No error has been found" not in out:
         raise Infra("model %s/%s: TLC reports an error or did not finish:\n%s" % (job["module"], job["cfg"], out[-3000:]))
     return {"name": job["name"], "viols": [], "events": 0, "segments": 0, "calls": 0, "states": st["distinct"],
             "transitions": st["generated"], "tdrv": 0.0, "ttlc": st["wall"], "sample": [], "mc": True}
@@ -442,6 +446,15 @@ def run_job(job, scratch):
     viols, consumed = parse_trace_out(out)
     if consumed is None or consumed[0] != consumed[1] or "No error has been found" not in out:
         raise Infra("TLC did not consume trace %s: %s\n%s" % (trace, consumed, out[-4000:]))
+    for extra_mod in job.get("also_modules", []):
+        out2, st2 = run_tlc(extra_mod + ".tla", extra_mod + ".cfg", scratch, env={"TRACE": trace}, timeout=1200)
+        v2, c2 = parse_trace_out(out2)
+        if c2 is None or c2[0] != c2[1] or "No error has been found" not in out2:
+            raise Infra("TLC (%s) did not consume trace %s: %s\n%s" % (extra_mod, trace, c2, out2[-3000:]))
+        viols += v2
+        st["distinct"] += st2["distinct"]
+        st["generated"] += st2["generated"]
+        st["wall"] += st2["wall"]
     # join violations with the trace lines
     lines = None
     segs = {}
@@ -547,7 +560,7 @@ def seq_job(name, seed, profile, segs, steps, avoid, disk=20000, dumpeach=50, ex
 
 
 def crash_job(name, seed, profile, segs, steps, avoid, disk=2000, extra=None):
-    return {"name": name, "module": "NfsTrace.tla", "cfg": "NfsTrace.cfg", "driver_timeout": 3000,
+    return {"name": name, "module": "NfsTrace.tla", "cfg": "NfsTrace.cfg", "driver_timeout": 3000, "also_modules": ["WalTrace"],
             "driver": ["crash", "-seed", str(seed), "-segs", str(segs), "-steps", str(steps), "-profile", profile,
                        "-avoid", avoid, "-disk", str(disk)] + (extra or [])}
 
@@ -564,7 +577,7 @@ def plan(prop, tier, seed, known):
     if prop == "C02":
         n = 6 if q else 48
         for i in range(n):
-            jobs.append(seq_job("seq%d" % i, seed * 100 + i, "mix,data,names,dirs", 4 if q else 8, 250 if q else 400, av))
+            jobs.append(seq_job("seq%d" % i, seed * 100 + i, "mix,data,names,dirs,many", 5 if q else 10, 250 if q else 400, av))
         jobs.append(probe_job(prop, av))
         # model-based tests: one real run per transition of the bounded NfsMC graph (a slice in quick) and long simulated walks
         parts = 16
@@ -600,6 +613,9 @@ def plan(prop, tier, seed, known):
             jobs.append(seq_job("struct%d" % i, seed * 100 + i, "dirs,names,mix,many,data", 5 if q else 10, 200 if q else 400, av,
                                 disk=8000, extra=["-snapeach", "5"]))
         jobs.append(probe_job(prop, av))
+        for i in range(2 if q else 12):   # failed operations on nearly-full disks must not damage the structure either
+            jobs.append(seq_job("structfull%d" % i, seed * 100 + 60 + i, "full", 4 if q else 8, 120 if q else 300, av,
+                                dumpeach=40, extra=["-snapeach", "2", "-disks", "1600,1700,1900,2300"]))
         # concurrent histories: the structure at the quiescent end of each history (and the reference state reached by the
         # linearization) - directed window schedules and random conflicting clients
         parts = 32
@@ -639,6 +655,8 @@ def plan(prop, tier, seed, known):
             jobs.append(crash_job("crashbig%d" % i, seed * 100 + 50 + i, "crashbig", 1, 12 if q else 20, av, disk=3400,
                                   extra=["-loss", "1", "-cont", "2", "-nested", "1", "-stride", "3" if q else "1"]))
         jobs.append(probe_job(prop, av))
+        jobs.append({"name": "Wal_MC", "kind": "mc", "module": "Wal.tla", "cfg": "Wal_MC.cfg"})
+        jobs.append({"name": "Wal_MC_raw(negative control)", "kind": "mc", "module": "Wal.tla", "cfg": "Wal_MC_raw.cfg", "expect_violation": True})
     elif prop == "C07":
         n = 6 if q else 60
         for i in range(n):
